@@ -64,14 +64,13 @@ func Regist(s *Stream) {
 
 // Unregist 取消注册
 func Unregist(s *Stream) {
-	si, ok := streams.Load(s.path)
-	if ok {
-		s2 := si.(*Stream)
-		if s2 == s {
-			streams.Delete(s.path)
-		}
-	}
+	unregistIfCurrent(s)
 	s.Close()
+}
+
+// unregistIfCurrent removes s from the registry only if it is still the stream registered under its path.
+func unregistIfCurrent(s *Stream) {
+	streams.CompareAndDelete(s.path, s)
 }
 
 // UnregistAll 取消全部注册的流
